@@ -901,6 +901,10 @@ def _canon(f, op, depth=3):
             return str(c["v"])
         if "s" in c:
             return repr(c["s"])[:24]
+        # a string pattern of a `match` is a constant printed as its source text (`"="`)
+        tx = c.get("text", "")
+        if isinstance(tx, str) and len(tx) >= 2 and tx.startswith('"') and tx.endswith('"'):
+            return repr(tx[1:-1])[:24]
         return "const"
     if r[0] == "place":
         fl = [e.get("name") or ("@" + e["downcast"] if "downcast" in e else "") for e in r[1]["p"] if isinstance(e, dict)]
